@@ -21,8 +21,8 @@ PROPS.update({
     },
     "C14": {
         "streams": ["c14k", "sess-loop"],
-        "audit": ["C14Keys.lean"],
-        "modules": ["GoDcp.Props.C14Keys"],
+        "audit": ["C14Keys.lean", "C14Loop.lean"],
+        "modules": ["GoDcp.Props.C14Keys", "GoDcp.Props.C14Loop"],
         "clauses": ["C14"], "shrink": True,
         "compare_parts": {"sess-loop": ["deliver", "savecall", "written", "nowrite", "track"]},
         "rule": "key-cp: real couchbase.getCheckpointID (via the additive verif-tagged export VerifCheckpointID) for group names drawn from a grammar "
